@@ -86,14 +86,20 @@ def compile_expression(
     var_indices = {var.name: i for i, var in enumerate(variables)}
 
     # Generate and cache the compiled function
+    # id(expr) is part of the key: Variable and Parameter compare equal by
+    # name, so two leaves from different models must not share a closure
     return _compile_cached(
-        expr, tuple(var.name for var in variables), tuple(var_indices.items())
+        expr,
+        id(expr),
+        tuple(var.name for var in variables),
+        tuple(var_indices.items()),
     )
 
 
 @lru_cache(maxsize=1024)
 def _compile_cached(
     expr: Expression,
+    expr_id: int,
     var_names: tuple[str, ...],
     var_indices_items: tuple[tuple[str, int], ...],
 ) -> Callable[[NDArray[np.floating]], NDArray[np.floating] | np.floating | float]:
